@@ -118,7 +118,8 @@ func cmdVerify(args []string) {
 			}
 			fmt.Printf("%s %-70s %-8s %-7s %.2fs %s  [%s]\n", st, o.Name, o.Result, o.Solver, o.Time, o.Pos, o.Text)
 			if !ok && *keep != "" {
-				fmt.Printf("     smt: %s/o%05d.smt2\n", *keep, i)
+				_ = i
+				fmt.Printf("     smt: %s\n", o.File)
 			}
 		}
 	}
